@@ -33,6 +33,9 @@ RULE = (
     "TooBig) while >= 1 was kept, or padding with TSIG present"
     ' Every case additionally renders with padding blocks 2..64 at the unlimited size (alignment coincidences).'
 )
+RULE += (
+    " Round 10 added: every swept limit also applied as request_payload=L with max_size=0."
+)
 ASSUMPTIONS = [
     "vlib/ref/wire.py (independent walker) and vlib/ref/tsig_ref.py are trusted",
     "the clock read by dns.message is a fake time object for the duration of a case",
